@@ -55,6 +55,8 @@ def case_strategy(draw, tier):
         'gap_ms': draw(st.sampled_from([None, None, None, 2000, 3500, 4500])),
         'gap_lead': draw(st.sampled_from([0, 0, 1])),
         'ipc': draw(st.booleans()),
+        # the stalling consumer also listens to an unrelated publisher as an ephemeral ('?') source, listed before or after the synchronized one
+        'side': draw(st.sampled_from([None, None, 'eph_first', 'eph_last'])),
     })
 
 
@@ -89,6 +91,9 @@ def build_nodes(case, stall_ms):
             nodes[0]['required'] = ['C', 'D'] if case['required'] else None
         else:
             nodes[0]['required'] = ['C'] if case['required'] else None
+    if case.get('side'):
+        nodes.append({'id': 'X', 'beh': {'kind': 'src', 'n': case['n'], 'work': [40], 'topics': ['aux']}, 'start': st_[3]})
+        stalled['sources'] = (['X?;aux>side'] + stalled['sources']) if case['side'] == 'eph_first' else (stalled['sources'] + ['X?;aux>side'])
     nodes.append(stalled)
     return nodes, edges
 
@@ -144,6 +149,8 @@ def run_once(case, stall_ms):
 def run_case(case):
     r = run_once(case, case['stall_ms'])
     classes = [f'position {case["pos"]}', f'net {case["net"]["cls"]}', 'stall beyond timeout' if case['stall_ms'] > CONN_TIMEOUT_MS else 'stall below timeout']
+    if case.get('side'):
+        classes.append(f'stalling consumer also has an ephemeral source ({case["side"]})')
     if case.get('gap_ms'):
         classes.append('producer idle before the stall')
     if r.get('raised'):
